@@ -311,6 +311,7 @@ pub fn cmd_macro(v: &Value) -> Value {
 pub fn cmd_pipe(v: &Value) -> Value {
     let src = v["src"].as_str().unwrap().to_string();
     let solver = v["solver"].as_str().unwrap_or("auto").to_string();
+    let consts = crate::api_consts(v);
     timed(move || {
         let mut pipes: Vec<Box<dyn Pipeable>> = vec![
             Box::new(CompilerPipe::new()),
@@ -325,7 +326,7 @@ pub fn cmd_pipe(v: &Value) -> Value {
         }
         let runner = PipeRunner::new(pipes);
         let fns = IndexMap::new();
-        let ctx = PipeContext::new(vec![], &fns);
+        let ctx = PipeContext::new(consts, &fns);
         let (err, results) = match runner.run(PipeableData::String(src), &ctx) {
             Ok(r) => (None, r),
             Err((e, r)) => (Some(e), r),
